@@ -5,7 +5,7 @@
 //	gvh-table lua         Lua chunks on the real runtime (hx.LuaEngine)
 //
 // hist input : <id> <stride> ; <op> ; <op> ; ...   (state digest after every stride-th op and the last one)
-//                   ops: S k v | R k v | G k | N k | L | E a b | W m p q fresh cap   (numbers in hex)
+//                   ops: S k v | R k v | G k | N k | L | E a b | J a b | W m p q fresh cap   (numbers in hex)
 // hist output: <id> H:<key=hexhash,...|-> O:<res> <state>|<res> <state>|...
 // values     : n b0 b1 i<hex, leading - if negative> f<16 hex bits> s<hex>|s- t<k> g<k> c<ptr>.<cls>
 package main
@@ -33,11 +33,12 @@ type world struct {
 	vals      map[string]rt.Value    // token -> identity value
 }
 
-const factorySrc = `return
+const factorySrc = `local u1, u2a, u2b, u3 = 1, 2, 3, 4
+return
   function() return function() end end,
-  function() return function() return 1 end end,
-  function() return function() return 2 end end,
-  function() return function() return 3 end end`
+  function() return function() return u1 end end,
+  function() return function() return u2a + u2b end end,
+  function() return function() u3 = u3 + 1 return u3 end end`
 
 func newWorld() *world {
 	w := &world{toks: map[interface{}]string{}, vals: map[string]rt.Value{}}
@@ -274,6 +275,15 @@ func (w *world) apply(t *rt.Table, f []string) (res string, panicked bool) {
 		return w.show(nk) + "," + w.show(nv) + "," + s, false
 	case "L":
 		return strconv.FormatInt(t.Len(), 16), false
+	case "J":
+		// what debug.upvaluejoin(a, 1, b, 1) does (lib/debuglib/debuglib.go:164): a's first upvalue becomes b's cell
+		a, b := w.parse(f[1]), w.parse(f[2])
+		ca, ok1 := a.TryClosure()
+		cb, ok2 := b.TryClosure()
+		if ok1 && ok2 && len(ca.Upvalues) > 0 && len(cb.Upvalues) > 0 {
+			ca.Upvalues[0] = cb.Upvalues[0]
+		}
+		return "-", false
 	case "E":
 		// value equality against table-key identity for one pair of values, all at run time:
 		// Value.Equals, RawEqual (what rawequal and == without __eq use), and "same entry"
@@ -285,13 +295,20 @@ func (w *world) apply(t *rt.Table, f []string) (res string, panicked bool) {
 			return "0"
 		}
 		req, _ := rt.RawEqual(a, b)
-		same := "-"
+		same, sameBig := "-", "-"
 		if !a.IsNil() && !a.IsNaN() {
 			tt := rt.NewTable()
 			tt.Set(a, rt.BoolValue(true))
 			same = bit(!tt.Get(b).IsNil())
+			// the same question in a table whose hash part is hashed (pre-filled with 24 string keys)
+			tb := rt.NewTable()
+			for i := 0; i < 24; i++ {
+				tb.Set(rt.StringValue(fmt.Sprintf("pf%02d", i)), rt.BoolValue(true))
+			}
+			tb.Set(a, rt.BoolValue(true))
+			sameBig = bit(!tb.Get(b).IsNil())
 		}
-		return "q" + bit(a.Equals(b)) + bit(req) + same, false
+		return "q" + bit(a.Equals(b)) + bit(req) + same + sameBig, false
 	case "W":
 		m, p, q, fresh, capn := hexn(f[1]), hexn(f[2]), hexn(f[3]), int64(hexn(f[4])), hexn(f[5])
 		var vis []rt.Value
@@ -370,6 +387,9 @@ func histEngine(in *bufio.Scanner, out *bufio.Writer, verbose bool) {
 			case "E":
 				addHash(f[1])
 				addHash(f[2])
+				for i := 0; i < 24; i++ {
+					addHash("s" + hex.EncodeToString([]byte(fmt.Sprintf("pf%02d", i))))
+				}
 			case "L":
 				// len probes IntValue(len+1), len+2, ... in the hash part: report the hashes of
 				// the integers just above the current array length
